@@ -74,6 +74,8 @@ func c01(w *core.World, r *core.Report) {
 
 	r.Rule("R01.7", "non-replayable command table: inserted unconditionally, contains the documented set, disjoint from key-addressed data commands", 3)
 	ruleNoRouteTable(w, r)
+	r.Rule("R19.10", "a command that cannot be routed poisons the batch: the sender ignores Put's result, so an unrecorded refusal silently drops the command while the rest of the batch is sent and the position moves past it (shared with C19)", 6)
+	ruleBatchPoisoned(w, r)
 }
 
 // ---------------------------------------------------------------- R01.1
